@@ -146,6 +146,8 @@ def search_origin(t):
         inner = t[1]
         if inner[0] == "call" and name_is(inner[2], "feed") and len(inner[3]) == 2:
             return (base_slice(inner[3][1]), 0)  # Parser::feed returns the index of a '>' inside the fed slice (C01 R3)
+        if inner[0] == "call" and name_is(inner[2], "encoding::detect_encoding") and len(inner[3]) == 1 and fields_of(t)[-1:] == ("1",):
+            return (base_slice(inner[3][0]), 1)  # the number of BOM bytes to skip is the length of a prefix matched on this slice (C17 R3 table)
         if inner[0] == "call" and name_is(inner[2], "QName::index"):
             return (("pl", strip_wrappers(inner[3][0]), ("*", ("f", 0, "0", "quick_xml::name::QName"))), 0)
         if inner[0] == "call" and name_is(inner[2], "BangType::parse") and fields_of(t)[-1:] == ("1",):
@@ -264,8 +266,9 @@ def closure_sites(ctx, K):
                 nm = sym.short(e[2]).split("::")[-1] if isinstance(e[2], str) else "?"
                 if nm in ("map", "map_or", "and_then", "map_or_else", "filter", "is_some_and") and ("option::Option" in str(e[2]) or "result::Result" in str(e[2])):
                     # closure applied to the payload of an Option / Result: the parameter is that payload
-                    o = search_origin(("pl", strip_wrappers(e[3][0]), (("d", 1, "Some"), ("f", 0, "0", "std::option::Option"))))
-                    out.append((nm, None if o is None else (o[0], o[1]), strip_wrappers(cl[0])[2]))
+                    payload = ("pl", strip_wrappers(e[3][0]), (("d", 1, "Some"), ("f", 0, "0", "std::option::Option")))
+                    o = search_origin(payload)
+                    out.append((nm, None if o is None else (o[0], o[1]), strip_wrappers(cl[0])[2], payload))
                     continue
                 if nm not in ITEM_ADAPTORS or "Iterator" not in str(e[2]):
                     ok = False
@@ -293,9 +296,16 @@ def closure_context_arg(ctx, K, site, p, i, e):
         return None
     need = 0 if rng[2] == "RangeToInclusive" else 1   # `..=p` needs p < len, `..p` / `p..` need p <= len
     bound = strip_wrappers(rng[3][0])
-    # the bound is the closure's own parameter (argument 2, possibly a reference pattern)
+    extra = 0
+    if bound[0] == "bin" and bound[1] == "Add" and strip_wrappers(bound[3])[0] == "c" and isinstance(strip_wrappers(bound[3])[2], int) and 0 <= strip_wrappers(bound[3])[2] <= 8:
+        extra = strip_wrappers(bound[3])[2]      # `..p + 1`
+        bound = strip_wrappers(bound[2])
+    # the bound is the closure's own parameter (argument 2, possibly a reference pattern), or a component of it
     is_param = bound[0] == "arg" and bound[1] == 2 or (bound[0] == "pl" and strip_wrappers(bound[1])[0] == "arg" and strip_wrappers(bound[1])[1] == 2 and all(x == "*" for x in bound[2]))
-    if not is_param:
+    comp = None
+    if not is_param and bound[0] == "pl" and strip_wrappers(bound[1])[0] == "arg" and strip_wrappers(bound[1])[1] == 2:
+        comp = tuple(x for x in bound[2] if x != "*")     # e.g. the `.1` of a tuple payload
+    if not is_param and comp is None:
         return None
     # the base is a captured variable
     while base[0] == "call" and name_is(base[2], "deref", "as_ref", "as_bytes"):
@@ -306,8 +316,12 @@ def closure_context_arg(ctx, K, site, p, i, e):
     if not fs:
         return None
     k = fs[0][1]
-    for nm, org, ops in cs:
-        if org is None or k >= len(ops) or not same_slice(base_slice(ops[k]), org[0]) or org[1] > need:
+    for c in cs:
+        nm, org, ops = c[0], c[1], c[2]
+        if comp is not None:
+            # a component of the payload: ask for the origin of that component at the call site
+            org = search_origin(sym.mk_place(c[3], comp)) if len(c) > 3 else None
+        if org is None or k >= len(ops) or not same_slice(base_slice(ops[k]), org[0]) or org[1] + extra > need:
             return None
     return "closure parameter is a position found in the captured slice (every use of the closure: %s)" % sorted({c[0] for c in cs})
 
